@@ -76,7 +76,8 @@ struct DecodeInfo {
     uint16_t unused;         // Unused<> bits of the row (from the table text)
     int32_t nargs;
     int32_t args[VERIF_MAX_ARGS];      // operand storage / constant value
-    char arg_types[VERIF_MAX_ARGS][24]; // operand type names (Ax, MemImm8, bool, SumBase ...)
+    char arg_types[VERIF_MAX_ARGS][24]; // operand type names (Ax, MemImm8, bool, SumBase ...), truncated
+    int8_t arg_bits[VERIF_MAX_ARGS];    // operand width in bits (0 for compile-time constants)
 };
 
 struct GenResult {
